@@ -124,6 +124,14 @@ def tasks(tier):
         cfg = dict(M=3, alphabet=["x:T", "ok", "r:T"], handler=hd, handler_free=True, max_unknown=None,
                    before_sleep=hd, sleeper=hd, callable_kind="clocklike")
         out.append({"family": "protocol-clocklike-callables", "cfg": cfg, "entry": e, "bound": 0})
+    # one @retry(...) decorator object shared by a sync and an async function
+    for e, aw in itertools.product(["adeco", "deco"], [True, False]):
+        if aw and e == "deco":
+            continue
+        cfg = dict(M=3, alphabet=["x:T", "ok", "r:T"], handler="policy", handler_free=True,
+                   max_unknown=None, before_sleep="policy", sleeper="policy", deco_shared=True,
+                   bs_async=aw, sleeper_async=aw, suspend=aw)
+        out.append({"family": "protocol-shared-decorator", "cfg": cfg, "entry": e, "bound": 0})
     # delays that are not whole microseconds: DEFER reports exactly the computed delay
     for e in SYNC + ASYNC:
         cfg = dict(M=3, alphabet=["x:T", "ok", "r:T"], handler="call", handler_free=True,
